@@ -256,6 +256,46 @@ theorem mathBody_uint (sign : Option Char) (body : List Char) (n : Nat) (sup : B
       · have := fracPart_dec _ _ _ _ h
         cases this
 
+/-- a supported `Inf`/`NaN` verdict comes from the words `Inf` (any sign) and `NaN` (no sign) -/
+theorem mathBody_special (sign : Option Char) (body : List Char) (nv : NumVal)
+    (h : mathBody sign body = some (nv, true)) (hk : nv = .nan ∨ ∃ neg, nv = .inf neg) :
+    body = "Inf".toList ∨ (sign = none ∧ body = "NaN".toList) := by
+  have notk : ∀ {x : NumVal}, (x = nv) → (∀ neg, x ≠ .inf neg) → x ≠ .nan → False := by
+    intro x hx h1 h2
+    rcases hk with rfl | ⟨neg, rfl⟩
+    · exact h2 hx
+    · exact h1 neg hx
+  unfold mathBody at h
+  split at h
+  · rename_i hc; exact Or.inl (eq_of_beq hc)
+  split at h
+  · simp at h
+  split at h
+  · rename_i hc
+    simp only [Bool.and_eq_true] at hc
+    right
+    exact ⟨by cases sign <;> simp_all, eq_of_beq hc.2⟩
+  split at h
+  · simp at h
+  split at h
+  · unfold uintPart at h
+    have h1 := of_ite_none h
+    obtain ⟨l, _, hf⟩ := Option.map_eq_some_iff.mp h1
+    simp only [Prod.mk.injEq] at hf
+    exact (notk hf.1 (by intro neg; simp) (by simp)).elim
+  · split at h
+    · unfold basedPart at h
+      obtain ⟨l, _, hf⟩ := Option.map_eq_some_iff.mp h
+      simp only [Prod.mk.injEq] at hf
+      exact (notk hf.1 (by intro neg; simp) (by simp)).elim
+    · split at h
+      · unfold decPart at h
+        obtain ⟨l, _, hf⟩ := Option.map_eq_some_iff.mp h
+        simp only [Prod.mk.injEq] at hf
+        exact (notk hf.1 (by intro neg; simp) (by simp)).elim
+      · have := fracPart_dec _ _ _ _ h
+        rcases hk with rfl | ⟨neg, rfl⟩ <;> cases this
+
 theorem stripSuffix?_some (suf s d : List Char) (h : stripSuffix? suf s = some d) : s = d ++ suf := by
   unfold stripSuffix? at h
   split at h
